@@ -17,13 +17,13 @@ import (
 )
 
 func init() {
-	Register(&Rule{Name: "ERRNIL", Floor: 15, Run: runErrNil,
+	Register(&Rule{Name: "ERRNIL", Floor: 8, Run: runErrNil,
 		Doc: "on every return of Parse, scan, SetString, ParseDecimal and the context wrappers: a possibly non-nil error comes with a nil *Decimal and a nil error with a non-nil one; Parse reports success only after the reader is exhausted (io.EOF)"})
-	Register(&Rule{Name: "ERRDROP", Floor: 10, Run: runErrDrop,
+	Register(&Rule{Name: "ERRDROP", Floor: 4, Run: runErrDrop,
 		Doc: "no error returned by a callee inside the scanners is dropped, except the explicit `_ = r.UnreadByte()`"})
-	Register(&Rule{Name: "SCANSHAPE", Floor: 6, Run: runScanShape,
+	Register(&Rule{Name: "SCANSHAPE", Floor: 3, Run: runScanShape,
 		Doc: "the separator gate passed to scanExponent equals the one of dec.scan (base == 0); fraction digits of a base-2/8/16 mantissa contribute 1/3/4 bits each and base-10 digits one decimal exponent each"})
-	Register(&Rule{Name: "FMTSHAPE", Floor: 5, Run: runFmtShape,
+	Register(&Rule{Name: "FMTSHAPE", Floor: 3, Run: runFmtShape,
 		Doc: "MarshalText asks for the shortest representation in a format Parse accepts; Append rounds a copy only for a non-negative precision, under x's rounding mode, and never asks for precision 0; infinity spellings and exponent markers written are among those read; Format handles every documented verb and flag"})
 }
 
